@@ -5,62 +5,85 @@ READY = True
 
 META = {
     "technique": "Lean 4 proof (constant folder sound for the run-time semantics of the emitted jump/compare code, for every "
-                 "implementation of the shared value operations; hoisting lemma; operator and traversal tables regenerated from the "
-                 "source) + differential runs: every hoisting variant of generated expressions and statements on the real engine, "
-                 "real as_const / instruction stream / values against the model",
+                 "implementation of the shared value operations; hoisting lemma at expression and at statement level; every call "
+                 "form with *args/**kwargs; operator, traversal, constant-site and statement-traversal tables regenerated from the "
+                 "source) + differential runs: every hoisting variant (items one by one AND whole literal containers) of generated "
+                 "expressions and statements on the real engine, real as_const / LoadConst lists of the instruction streams / block "
+                 "tables / values against the model",
     "category": "proof",
     "text": "Kernel-checked theorems about a transcription of Expr::as_const/eval_binop/eval_compare (folder), of what the emitted "
             "instructions compute (short-circuit jumps returning the operand, CompareAndPreserve chains, op_binop! undefined "
-            "assertions, Not/In/Neg, list/tuple/map construction, static keyword arguments of calls, filters and tests, and the "
-            "never-folded constructs that sit between constants: attribute/item access with handle_undefined, slices, conditional "
-            "expressions with the silent undefined, filters, tests, global function calls) and of compile_expr's fold-first scheme: "
-            "whenever the folder yields a value, run-time evaluation yields the same value in every mode and context (so it never "
-            "masks an error); the emitted code computes exactly the unfolded run-time semantics; replacing any subset of literal "
-            "sub-expressions by variables bound to the same values changes neither value nor error; code generation has no error "
-            "channel, a failing constant expression fails only when executed. The value operations (ops::add..neg, contains, "
-            "string_concat, ==, Ord, is_true, map insertion, get_item/get_attr/slice, filters, tests, callees) are parameters of the "
-            "theorems because folder and VM share them. Tie: (a) tables regenerated from the source - operator arms of eval_binop/"
-            "eval_compare/compile_bin_op/emit_compare/compare_op/func_binop!/op_binop!/CompareAndPreserve proved equal to the model's, "
-            "the set of Expr variants as_const handles and the code generator's compile-time special cases, over which the model's folder "
-            "DISPATCHES (it folds exactly the node kinds the source folds; a new foldable kind or a second as_const call site breaks "
-            "traversal_from_source), the call sites of compile_call_args/compile_call with their caller argument and the three facts about the caller of a "
-            "{% call %} block (call_sites_from_source; call_block_static_kwargs_keep_caller: the call of a call block passes the user's "
-            "keyword arguments plus the run-time caller also when all keyword values are literals - the guard static_kwargs = "
-            "caller.is_none() is regenerated from the source and discharged by decide for the concrete instance), "
-            "MAX_REPEATED_STRING_LEN and the ValueKind order used by the concrete value model; (b) the harness "
-            "generates expressions over the literal grammar (depth<=5, numeric boundary zoo, floats, escaped strings, containers with "
-            "repeated keys, chains, keyword arguments, item/attribute access, slices, if-expressions, filters, tests) and templates with "
-            "literals in statement heads (if/elif, for, set, with, macro defaults, include/extends/import/from targets, autoescape, "
-            "filter arguments, call blocks with keyword arguments, do, filter blocks and set blocks with keyword arguments), renders all 2^k (k<=6, 64 sampled beyond (templates: k<=4, 20 sampled beyond)) hoisting variants on the real engine under the "
-            "four undefined modes (oracle: identical output / error kind, identical value via compile_expression, template loads), and "
-            "compares the real as_const, the LoadConst in the real instruction stream and the real values with the Lean model run on "
-            "the real parser's AST. Every hoisting variant of an expression is rendered through a rotating entry point "
-            "(template_from_str, render_str, render_named_str, add_template_owned+get_template, render_captured_to, render_captured, "
-            "template_from_named_str, the Expression API followed by an emit), cases rotate through environment configurations "
-            "(plain, html auto-escape callback, custom formatter, debug off, custom syntax), and a second build with "
+            "assertions, Not/In/Neg, list/tuple/map construction, static keyword arguments, and the never-folded constructs that "
+            "sit between constants: attribute/item access with handle_undefined, slices, conditional expressions with the silent "
+            "undefined, filters, tests, calls) and of compile_expr's fold-first scheme: whenever the folder yields a value, run-time "
+            "evaluation yields the same value in every mode and context (so it never masks an error); the emitted code computes "
+            "exactly the unfolded run-time semantics; replacing any subset of literal sub-expressions by variables bound to the same "
+            "values changes neither value nor error; code generation has no error channel, a failing constant expression fails only "
+            "when executed. PROVED SINCE THE LAST ROUND (was validated / oracle-only): (1) every call form - function, method, "
+            "object, filter, test, each with any mix of positional, *splat, keyword and **splat arguments, and the call of a "
+            "{% call %} block on any of them - is a constructor of the model (`callx`, the two loops of compile_call_args): "
+            "static_kwargs_eq_dynamic_all_forms, call_forms_transparent, static_kwargs_path_all_forms, splats_and_the_static_path "
+            "(**splat switches the static path off, *splat does not), call_block_all_forms_keep_caller; C04_holds covers them. "
+            "(2) `a in <literal list/tuple>`: the emitted code is the code of a, ONE LoadConst of the list the folder builds, In "
+            "(in_literal_container_code, for every number and kind of items) and all four hoisting variants evaluate the same "
+            "contains(list, a) of the shared ops::contains (in_literal_container_same_relation, concrete_in_literal_container: a "
+            "scan with ==), also `not in` (not_in_literal_container_code). (3) the constants of the emitted code are a function "
+            "`constsC` of the model (a folded node is one constant, no operator rewrites an operand into another constant) which "
+            "the check compares with the LoadConst values of the real instruction streams. (4) statement level: "
+            "stmt_hoist_transparent - hoisting literals in any heads of a template changes neither the block table the code "
+            "generator registers, nor the macro declarations, nor the value/error of any compiled head in any scope environment "
+            "that keeps the hoisted variables; const_if_elimination_breaks_block_table shows that the seeded constant-branch "
+            "elimination is not transparent in the same model. The value operations (ops::add..neg, contains, string_concat, ==, "
+            "Ord, is_true, map insertion, get_item/get_attr/slice, filters, tests, callees, UnpackLists/MergeKwargs) are parameters "
+            "of the theorems because folder and VM share them. Tie: (a) tables regenerated from the source - operator arms of "
+            "eval_binop/eval_compare/compile_bin_op/emit_compare/compare_op/func_binop!/op_binop!/CompareAndPreserve proved equal "
+            "to the model's; the Expr variants as_const handles and the code generator's compile-time special cases, over which the "
+            "model's folder DISPATCHES; the call sites of compile_call_args/compile_call; NEW: every Instruction::LoadConst site and "
+            "every pattern match on a literal/container variant of ast::Expr in codegen.rs (const_sites_from_source: an "
+            "operator-specific precomputed constant such as a lookup table needs a new row), every Vec<Stmt> field of the AST with "
+            "the one canonical loop that compiles it and the conditions around those loops (stmt_traversal_from_source: no "
+            "statement list is compiled under a condition on an expression's value); (b) the harness generates expressions over "
+            "the literal grammar (depth<=5, numeric boundary zoo, floats, escaped strings, containers with repeated keys, chains, "
+            "keyword arguments, item/attribute access, slices, if-expressions, filters, tests, calls of a function / a method / an "
+            "item with method syntax / an object with *args and **kwargs) and templates with literals in statement heads, PLUS the "
+            "size-class stream: ~100 operator forms (in, not in, ==, <, +, *, subscripts, slices, 20 filters with literal "
+            "arguments, tests, chains, splats, map lookups, strings, 28 statement forms incl. loop variables, break/continue, "
+            "recursive loops, set-then-use, macros) x container sizes 0,1,2,7,8,9,16,17,32,33,64,65 on both sides, items and "
+            "probes drawn from twelve cross-kind equality classes in which ==, Ord, Hash and the text differ (true/1/1.0, "
+            "false/0/0.0/-0.0, ints of every width against floats at 2^53, 2^63, 2^64, strings vs safe strings, none/false/0/'')"
+            "; renders all 2^k (k<=6, 64..80 sampled beyond; templates: k<=4, 20..28 sampled) hoisting variants - a literal "
+            "container is hoisted item by item AND as a whole (nested leaves) - on the real engine under the four undefined modes "
+            "(oracle: identical output / error kind, identical value via compile_expression, template loads, block tables, "
+            "render_block, exports, five consumer templates), and compares the real as_const, the LoadConst list of the real "
+            "instruction stream of up to eight hoisting variants per expression, the compiled block table of every template and "
+            "the real values with the Lean model run on the real parser's AST. Entry points rotate (template_from_str, render_str, "
+            "render_named_str, add_template_owned+get_template, render_captured_to, render_captured, template_from_named_str, the "
+            "Expression API followed by an emit), cases rotate through environment configurations (plain, html auto-escape "
+            "callback, custom formatter, debug off, custom syntax; literal emissions run under each), and a second build with "
             "feature preserve_order runs a quarter of the cases under the hoisting oracle.",
     "design_ref": "DESIGN.md §3 C04",
     "level_note": "Trusted: Lean kernel; hand transcription of as_const's traversal, compile_expr/compile_compare/compile_call_args "
-                  "and the VM handlers into MJ/Model/Fold.lean (the operator tables and the list of folded variants are regenerated "
-                  "from the source and proved equal to the model's; evaluation order and jump structure are validated by the "
+                  "and the VM handlers into MJ/Model/Fold.lean and of compile_stmt's traversal into MJ/Model/FoldStmt.lean (the "
+                  "operator tables, the folded variants, the constant sites and the statement-list loops are regenerated from the "
+                  "source and proved equal to / covered by the model's; evaluation order and jump structure are validated by the "
                   "differential streams). The theorems assume Prims.Lawful (no operation returns undefined, is_true(Bool b)=b, "
-                  "contains returns a bool) - PROVED for the concrete Lean model of the value operations (concrete_prims_lawful, so "
-                  "C04_concrete has no hypothesis about them left; also proved there: the last pair of a map literal / the last "
-                  "keyword argument of a name wins), which the value correspondence ties to the real ops.rs on every harness case - and Expr.WF (no undefined constant, Compare has >=1 "
-                  "operator), checked on the real parser's AST of every harness case. The concrete value operations "
-                  "(MJ/Model/FoldPrims.lean: exact binary64 on bit patterns incl. shortest float text, python string repr, i128 "
-                  "arithmetic, Ord/==, slices, a dozen builtin filters/tests) are validated by the value correspondence; what is not "
-                  "transcribed (inexact powf, NaN ordering, the filters upper/int/round, `is sequence` because lazy iterables are "
-                  "dumped as lists) is reported unmodelled (<3% of the expression cases) and covered by the hoisting oracle alone. "
-                  "With preserve_order, sources that build or index a map and can produce a boolean are left out (true==1 hash "
-                  "differently: C07's recorded finding eq-vs-hash:Bool~Number makes such maps depend on the random hash seed). "
-                  "Statements are covered by the hoisting oracle only (no statement model); for every template variant the oracle "
-                  "observes its own rendering, the compiled block table, render_block of every candidate name, the exports and the "
-                  "renderings of consumers that extend/import/include it. Method calls and calls of non-global "
-                  "callables are outside the box; splat arguments are oracle-only.",
+                  "contains returns a bool) - PROVED for the concrete Lean model of the value operations (concrete_prims_lawful) - "
+                  "and Expr.WF, checked on the real parser's AST of every harness case. The concrete value operations "
+                  "(MJ/Model/FoldPrims.lean: exact binary64 incl. shortest float text, python string repr, i128 arithmetic, Ord/==, "
+                  "slices, MergeKwargs/UnpackLists, the harness' callees, the filters default/length/abs/first/last/min/max/sum/"
+                  "string/list/safe/upper(ASCII), a dozen tests) are validated by the value correspondence; what is not transcribed "
+                  "(inexact powf, NaN ordering, the filters join/sort/unique/batch/slice/reverse/map/select/reject/items/dictsort/"
+                  "tojson/int/round, `is sequence`) is reported unmodelled (<5% of the expression cases) and covered by the hoisting "
+                  "oracle alone. Statement level: proved are the compile-time effects (block table, macro declarations) and the "
+                  "values of the compiled heads; HOW a statement uses its head values at run time (loop mechanics, scoping, "
+                  "captures) is not modelled here - the hoisting oracle observes rendering, block table, render_block, exports and "
+                  "consumers, and the block table is also compared with the model's. With preserve_order, sources that build or "
+                  "index a map and can produce a boolean are left out (C07's recorded finding eq-vs-hash:Bool~Number). Callees other "
+                  "than the harness' (kw, kwf, kwt, ob.m, ob.f, ob['f'], {'f': kw}.f) are parameters of the theorems and outside "
+                  "the value correspondence; block calls `self.name()` are oracle-only.",
 }
 
-FIELDS = ["key", "ast", "load", "k", "nvar", "lit", "hoist", "diff", "fold", "code", "vallit", "valhoist", "cfg"]
+FIELDS = ["key", "ast", "load", "k", "nvar", "lit", "hoist", "diff", "fold", "code", "vallit", "valhoist", "cfg", "tag", "codes"]
 
 
 def classify(lit, other):
@@ -75,11 +98,23 @@ def classify(lit, other):
     return "hoist-changes-error"
 
 
+def variant_codes(c):
+    """[(mask, ast tokens, LoadConst values)] of the instruction streams dumped for a case"""
+    if c.get("codes", "-") == "-":
+        return []
+    out = []
+    for ent in c["codes"].split(";"):
+        p = ent.split("|")
+        if len(p) == 3:
+            out.append((p[0], p[1], p[2]))
+    return out
+
+
 def root_of(ast):
     t = ast.split()
     if not t:
         return "?"
-    if t[0] in ("b", "c", "call", "filt", "test") and len(t) > 1:
+    if t[0] in ("b", "c", "call", "filt", "test", "callx") and len(t) > 1:
         return t[0] + ":" + t[1]
     return t[0]
 
@@ -96,6 +131,10 @@ def ops_in(ast):
             out.append("ga")
         elif x in ("call", "filt", "test") and i + 1 < len(t):
             out.append(x + ":" + t[i + 1])
+        elif x == "callx" and i + 3 < len(t):
+            out.append("callx:" + t[i + 1] + ":" + t[i + 3])
+        elif x in ("ps", "ks"):
+            out.append("splat:" + x)
         elif x == "c":
             out.append("chain")
     return out
@@ -130,15 +169,19 @@ def src_of(key):
 def run(r):
     r.rule = ("hand-written seeds (and/or on falsy operands, negated boundary literals, constant division by zero, `in`, `~`, "
               "comparison chains, map literals with repeated/colliding keys, floats and their text, escaped strings, keyword "
-              "arguments, item/attribute access, slices, if-expressions, filters, tests, undefined) plus random expressions over "
-              "the grammar (depth 1..5, every 16th case 6..8, <=48 literal leaves) plus templates with literal expressions in statement heads (27 "
-              "statement shapes + seeds); for each, all 2^k hoisting subsets for k<=6 and 64 sampled (none, all, singletons, "
-              "co-singletons, random) beyond; a case is non-trivial when it has at least one literal leaf and an operator or statement")
+              "arguments, splats, method/object calls, item/attribute access, slices, if-expressions, filters, tests, undefined) "
+              "plus random expressions over the grammar (depth 1..5, every 16th case 6..8, <=48 literal leaves) plus the size-class "
+              "stream (every operator/filter/statement form x 12 container sizes, 3 rounds quick / 30 thorough, items from the "
+              "cross-kind equality classes) plus templates with literal expressions in statement heads (34 statement shapes, "
+              "compile-time-effect templates, seeds, literal emissions under every configuration); for each, all hoisting subsets "
+              "for k<=6 leaves (a literal container is a leaf around its item leaves) and 64..80 sampled beyond (none, all-outer, "
+              "all-inner, every container, every top-level scalar with/without the rest, item singletons, co-singletons, random); a "
+              "case is non-trivial when it has at least one literal leaf and an operator or statement")
     r.assumptions = ["context variables hold exactly the Value the front end builds for the literal (obtained by evaluating the literal alone)",
                      "the callee of a call does not depend on how its keyword arguments were built (the harness' callee returns them)",
                      "the preserve_order build is covered by the hoisting oracle only (the Lean map model is the sorted map)"]
     r.regen_tables(["C04_BINOP_KINDS", "C04_FOLD_BINOP", "C04_FOLD_COMPARE", "C04_FOLD_UNARY", "C04_CODEGEN_BINOP",
-                    "C04_CODEGEN_COMPARE", "C04_VM_BINOP", "C04_TRAVERSAL"])
+                    "C04_CODEGEN_COMPARE", "C04_VM_BINOP", "C04_TRAVERSAL", "C04_CONST_SITES", "C04_STMT_TRAVERSAL"])
     r.lean_prove("MJ.Props.C04", "MJ/Audit/C04.lean", extra_targets=["drive_c04"])
     exe = r.cargo_build("c04")
     if exe is None:
@@ -170,15 +213,30 @@ def process(r, out, build, with_model):
             continue
         cases.append(dict(zip(FIELDS, f)))
     expr_idx = [i for i, c in enumerate(cases) if c["ast"] != "-" and "XS" not in c["ast"].split()] if with_model else []
-    drv_in = "".join(cases[i]["key"].split()[0] + "\t" + cases[i]["ast"] + "\n" for i in expr_idx)
-    model_lines = r.driver("drive_c04", drv_in) if with_model else []
+    # driver input: one line per expression case, followed by one `consts` line per instruction stream of a
+    # hoisting variant the harness dumped
+    drv = []
+    slots = {}
+    for i in expr_idx:
+        slots[i] = len(drv)
+        drv.append(cases[i]["key"].split()[0] + "\t" + cases[i]["ast"])
+        for ent in variant_codes(cases[i]):
+            drv.append("consts\t" + ent[1])
+    # … and one `stmt` line per template whose statement tree the harness dumped
+    stmt_slots = {}
+    if with_model:
+        for i, c in enumerate(cases):
+            if c["ast"] == "-" and c.get("codes", "-").startswith("T|"):
+                stmt_slots[i] = len(drv)
+                drv.append("stmt\t" + c["codes"].split("|")[1])
+    model_lines = r.driver("drive_c04", "".join(x + "\n" for x in drv)) if with_model else []
     model = None
     if not with_model:
         pass
-    elif model_lines is None or len(model_lines) != len(expr_idx):
+    elif model_lines is None or len(model_lines) != len(drv):
         r.broken.append("model driver output does not line up with the harness cases")
     else:
-        model = dict(zip(expr_idx, model_lines))
+        model = {i: model_lines[slots[i]] for i in expr_idx}
     r.exhaustive = False
     unmodelled = 0
     for i, c in enumerate(cases):
@@ -198,6 +256,11 @@ def process(r, out, build, with_model):
         r.hist["leaves"][str(k) if k <= 6 else "7+"] += 1
         r.hist["outcome"][c["lit"].split(":")[0] + (":" + c["lit"].split(":")[1] if c["lit"].startswith("err") else "")] += 1
         r.hist["folded"][c["fold"].split()[0]] += 1
+        if c["tag"].startswith("sized:"):
+            _, form, size, klass = c["tag"].split(":")
+            r.hist["container size class"][size] += 1
+            r.hist["equality class of items"][klass] += 1
+            r.hist["sized form"][("stmt " if form[0] == "s" else "expr ") + form[1:]] += 1
         where = ("stmt:" + stmt_head(src_of(key))) if stmt else root_of(ast)
         # ---- oracle: the property on the implementation's own results
         if c["load"] != "ok":
@@ -223,6 +286,16 @@ def process(r, out, build, with_model):
                              "hoist-changes-value:" + where)
         if "panic" in (c["lit"], c["hoist"], c["vallit"], c["valhoist"], c["code"]):
             r.hist["outcome"]["panic"] += 1
+        # ---- tie (statements): the block table the real code generator registers is the one the model's
+        # traversal (every statement list, unconditionally) registers for the real parser's tree
+        if stmt and with_model and model is not None and i in stmt_slots:
+            ml = model_lines[stmt_slots[i]]
+            real_blocks = c["codes"].split("|")[2]
+            r.hist["model"]["block tables compared"] += 1
+            if ml == "bad-case":
+                r.broken.append(f"model driver could not parse the statement tree of {src_of(key)}")
+            elif ml != "blocks=" + real_blocks:
+                r.model_disagreement(key, "block table of the compiled template: " + real_blocks, "registeredBlocks: " + ml[7:])
         # ---- tie: parser guarantees the model's well-formedness assumptions; real folder vs real code generator
         if stmt or not with_model:
             continue
@@ -269,6 +342,16 @@ def process(r, out, build, with_model):
             r.model_disagreement(key, "all-literal eval " + c["vallit"], "evalC " + d["comp"])
         if d["rt"] != c["valhoist"]:
             r.model_disagreement(key, "all-hoisted eval " + c["valhoist"], "evalRt " + d["rt"])
+        # the constants of the real instruction stream of the dumped hoisting variants are the model's `constsC`
+        # (a folded node is one constant = the folder's value; nothing else is precomputed)
+        for j, (mask, vast, consts) in enumerate(variant_codes(c)):
+            ml = model_lines[slots[i] + 1 + j]
+            r.hist["model"]["instruction-stream constants compared"] += 1
+            if ml == "bad-case":
+                r.broken.append(f"model driver could not parse the AST of variant {mask} of {src_of(key)}")
+            elif ml != "consts=" + consts:
+                r.model_disagreement(key, f"variant with leaves mask {mask} hoisted: LoadConst values in the instruction stream: {consts}",
+                                     "constsC: " + ml[7:])
         if i % max(1, len(cases) // 10) == 0:
             r.sample({"src": src_of(key), "mode": key.split()[0], "leaves": k, "variants": nvar, "outcome": c["lit"][:60],
                       "as_const": fold_impl[:60], "model": d["fold"][:60]})
